@@ -4,14 +4,21 @@ import json, os, subprocess, sys
 V = os.path.dirname(os.path.dirname(os.path.abspath(__file__)))
 sys.path.insert(0, os.path.join(V, 'tools'))
 rows = []
+if '--refresh' in sys.argv:
+    # re-evaluate every stored change (8 at a time; each evaluation applies the patch to a scratch copy and runs all 20 checks)
+    from concurrent.futures import ThreadPoolExecutor
+    names = [d for d in sorted(os.listdir(os.path.join(V, 'seeded'))) if os.path.exists(os.path.join(V, 'seeded', d, 'meta.json'))]
+
+    def one(d):
+        prop, x = d.split('-')
+        subprocess.run(['/venv/bin/python', os.path.join(V, 'tools', 'seeded_eval.py'), prop, x, '--keep', '--src', os.path.join(V, 'seeded', d)],
+                       capture_output=True, text=True)
+    with ThreadPoolExecutor(8) as ex:
+        list(ex.map(one, names))
 for d in sorted(os.listdir(os.path.join(V, 'seeded'))):
     mp = os.path.join(V, 'seeded', d, 'meta.json')
     if not os.path.exists(mp):
         continue
-    if '--refresh' in sys.argv:
-        import seeded_eval
-        prop, x = d.split('-')
-        seeded_eval.evaluate(prop, x, src=os.path.join(V, 'seeded', d), keep=True)
     m = json.load(open(mp))
     prop = m['property']
     own = prop in m['caught_by']
